@@ -19,7 +19,7 @@
                 no oracle involved
      "spec"   : like "mono" but on the specification's own scores (design check for C14)
    In every mode the sample strings are re-parsed and must denote the decoded assignment.    *)
-EXTENDS Vector, Score3Fast, Json, IOUtils, FiniteSets, TraceData
+EXTENDS Vector, Score3Fast, Score2Fast, Json, IOUtils, FiniteSets, TraceData
 CONSTANTS Mode
 Data == TraceData
 Tables == Data.tables
@@ -86,7 +86,7 @@ EL(lv, po, str, j, x) == IF po[x] = 0 THEN lv[1][1][x] ELSE lv[po[x]][((j \div s
 EntryLevels(lv, po, str, j) == <<EL(lv,po,str,j,1), EL(lv,po,str,j,2), EL(lv,po,str,j,3), EL(lv,po,str,j,4), EL(lv,po,str,j,5),
                                  EL(lv,po,str,j,6), EL(lv,po,str,j,7), EL(lv,po,str,j,8), EL(lv,po,str,j,9), EL(lv,po,str,j,10),
                                  EL(lv,po,str,j,11), EL(lv,po,str,j,12), EL(lv,po,str,j,13), EL(lv,po,str,j,14), EL(lv,po,str,j,15)>>
-ScoresOfFull(ver, minor, m) == IF ver = "2" THEN Scores2(m) ELSE IF ver = "3" THEN Scores3Fast(minor, m)
+ScoresOfFull(ver, minor, m) == IF ver = "2" THEN Scores2Fast(m) ELSE IF ver = "3" THEN Scores3Fast(minor, m)
                                ELSE <<Score4(Levels4F(m))>>
 
 \* ---- oracle mode ------------------------------------------------------------------------
